@@ -141,6 +141,8 @@ class Walker:
             raise Opaque("variable " + n)
         if k == "MemberExpr":
             name, uses, _ = self.lval(e)
+            if name in self.tr.binds:
+                return self.tr.binds[name]
             if name in self.member_alias:
                 return ("var", self.member_alias[name], uses)
             base = name.split(".")[-1].split("::")[-1]
@@ -356,6 +358,12 @@ class Walker:
             if rhs[0] == "lit" and self.in_cond_on == name:
                 self.tr.normalisers.add(f"{self.cls}: {name} clamped to {rhs[1]}")
                 return []
+            if s.get("opcode") == "=" and name.endswith(".type") and re.match(r"NiAnimationKey<", self.member_class(lhs) or ""):
+                # `key.type = interpolation`: a member that is never transferred ("no IO, used for Sync condition only") takes the
+                # value of a transferred one; conditions on it read that value (valid until the enclosing loop body ends)
+                self.tr.binds[name] = rhs
+                self.tr.normalisers.add(f"{self.cls}: the keys' untransferred `type` takes the value of the group's interpolation")
+                return []
             raise Opaque("assignment to a member")
         if k == "ReturnStmt":
             raise Opaque("return in an unsupported position")
@@ -519,7 +527,9 @@ class Walker:
         saved = dict(self.vars)
         self.vars[iv] = ("idx", lid)
         self.loops.append(lid)
+        binds = dict(self.tr.binds)
         b = self.stmt(body)
+        self.tr.binds = binds
         self.loops.pop()
         self.vars = saved
         return [("rep", n, lid, b)]
@@ -547,7 +557,18 @@ class Walker:
         self.vars = saved
         return [("rep", self.sizes[name], lid, b)]
 
+    @staticmethod
+    def member_class(e):
+        """class of the object a member expression selects from"""
+        e = strip(e)
+        if e.get("kind") != "MemberExpr" or not e.get("inner"):
+            return None
+        t = strip(e["inner"][0]).get("type", {})
+        return tname(t.get("desugaredQualType", t.get("qualType", ""))).replace("nifly::", "")
+
     def sc(self, ty, name, uses):
+        if name in self.tr.binds:
+            raise Opaque(f"{name} is transferred although a condition value was bound to it")
         if ty[0] == "sizeof":
             self.tr.types.add(ty[1])
         if uses != self.loops:
@@ -746,6 +767,7 @@ class Translator:
             if m["name"] == "Sync" and m["body"] is not None and "NiStreamReversible" in (m.get("type") or ""):
                 self.syncs.setdefault(m["cls"], m)
         self.loopctr = 0
+        self.binds = {}                  # untransferred member -> expression it was assigned (see Walker.stmt)
         self.enumvals = {}
         # members that are never synced and act as per-class constants in conditions
         self.classconst = {"bBSLightingShaderProperty": "BSLightingShaderProperty", "isPSys": "NiParticlesData"}
